@@ -109,6 +109,29 @@ class Host(object):
 HOST = Host()
 
 
+class FalsyMeta(type):
+    def __len__(cls):
+        return 0
+
+
+class FalsyHost(Host, metaclass=FalsyMeta):
+    """A host whose instances AND whose class are falsy (container-like, empty)."""
+
+    def __len__(self):
+        return 0
+
+    def __repr__(self):
+        return "falsy-host"
+
+
+FALSY_HOST = FalsyHost()
+
+
+def host_for(fr):
+    """Bound styles alternate (by node) between an ordinary and a falsy instance / class."""
+    return (HOST, Host) if fr.nid % 2 == 0 else (FALSY_HOST, FalsyHost)
+
+
 @asynq_dec()
 def t_parent(rt, fut):
     return (yield fut)
@@ -147,11 +170,11 @@ def make_task(style, rt, fr):
     if style == "explicit":
         return t_explicit.asynq(rt, fr)
     if style == "method":
-        return HOST.m.asynq(rt, fr)
+        return host_for(fr)[0].m.asynq(rt, fr)
     if style == "classmethod":
-        return Host.cm.asynq(rt, fr)
+        return host_for(fr)[1].cm.asynq(rt, fr)
     if style == "staticmethod":
-        return Host.sm.asynq(rt, fr)
+        return host_for(fr)[1].sm.asynq(rt, fr)
     raise HarnessFault("style %r" % (style,))
 
 
@@ -170,11 +193,11 @@ def asyncio_entry(style, rt, fr):
     if style == "explicit":
         return t_explicit.asyncio(rt, fr)
     if style == "method":
-        return HOST.m.asyncio(rt, fr)
+        return host_for(fr)[0].m.asyncio(rt, fr)
     if style == "classmethod":
-        return Host.cm.asyncio(rt, fr)
+        return host_for(fr)[1].cm.asyncio(rt, fr)
     if style == "staticmethod":
-        return Host.sm.asyncio(rt, fr)
+        return host_for(fr)[1].sm.asyncio(rt, fr)
     raise HarnessFault("style %r" % (style,))
 
 
@@ -190,11 +213,11 @@ def sync_call(style, rt, fr, how):
     if style == "explicit":
         return t_explicit(rt, fr)
     if style == "method":
-        return HOST.m(rt, fr)
+        return host_for(fr)[0].m(rt, fr)
     if style == "classmethod":
-        return Host.cm(rt, fr)
+        return host_for(fr)[1].cm(rt, fr)
     if style == "staticmethod":
-        return Host.sm(rt, fr)
+        return host_for(fr)[1].sm(rt, fr)
     raise HarnessFault("style %r" % (style,))
 
 
